@@ -140,7 +140,7 @@ def rand_expr(r, depth, atoms):
 def check(ctx):
     s = Session()
     core.mc(ctx, "fx", "MC_FxParser", {"Depth": 2, "Big": not ctx.quick},
-            invariants=["InvValue", "InvGrammar", "InvTail"], init="MCFInit", nxt="MCFNext", timeout=3300)
+            invariants=["InvValue", "InvGrammar", "InvTail", "InvFrame"], init="MCFInit", nxt="MCFNext", timeout=3300)
     # spec -> code: every expression of a smaller instance (depth 1, full atom pool), replayed without ever
     # clearing the real stack in between except at the session boundaries the trace spec is told about
     res = core.mc(ctx, "fx_replay", "MC_FxParser", {"Depth": 1, "Big": True},
